@@ -1,6 +1,7 @@
 package govc
 
 import (
+	"context"
 	"encoding/json"
 	"fmt"
 	"os"
@@ -127,6 +128,25 @@ func runCheck(repo, verif, prop, tier string, t0 time.Time) (int, error) {
 		return 2, fmt.Errorf("vacuity: %d obligations generated for %s, committed floor is %d", len(obls), prop, fl)
 	}
 	prog.solveAll(dir, obls, timeout, allSolvers, 16)
+	// lemmas over the spec functions (SMT-LIB files asserting the negated claim): must be unsat
+	lemmaReports := []map[string]interface{}{}
+	for _, lf := range pe.Lemmas {
+		path := filepath.Join(verif, lf)
+		if _, err := os.Stat(path); err != nil {
+			return 2, fmt.Errorf("lemma file %s: %v", lf, err)
+		}
+		use := solvers[:1]
+		if allSolvers {
+			use = solvers
+		}
+		for _, sc := range use {
+			r := runSolver(context.Background(), sc, path, timeout*3)
+			lemmaReports = append(lemmaReports, map[string]interface{}{"lemma": lf, "backend": sc.name, "status": r.status, "time_s": round3(r.secs)})
+			if r.status != "unsat" {
+				return 2, fmt.Errorf("lemma %s not proved by %s: %s", lf, sc.name, clip(r.out, 300))
+			}
+		}
+	}
 	// vacuity: reachability covers (must NOT be unsat)
 	prog.solveAll(filepath.Join(dir), covers, coverTimeout, false, 16)
 	var vacuous []string
@@ -291,6 +311,7 @@ func runCheck(repo, verif, prop, tier string, t0 time.Time) (int, error) {
 		"vacuity": map[string]interface{}{"reachability_covers": len(covers), "rule": "per function and per loop at least one path condition must not be refutable; obligation count must reach the committed floor",
 			"floor": floors[prop]},
 		"explanation": pe.Note,
+		"lemmas":      lemmaReports,
 		"evaluations": len(obls), "distinct_nontrivial": len(obls),
 		"rule": "one SMT query per proof obligation generated from /repo's current source; trivially true goals are not emitted, so every counted obligation is non-trivial; names are distinct",
 	}
